@@ -271,3 +271,9 @@ M("C10", "C10.partial", _G, "&('until' | 'or' | 'and' | \"implies\" | ')' | ';' 
 M("C10", "C10.partial", "src/scenic/syntax/compiler.py", "                s.UntilOp: \"until\",\n", "", "c10-until-not-rejected")
 M("C10", "C10.shadow", _G, "    | scenic_terminate_simulation_stmt\n    | scenic_terminate_stmt\n", "    | scenic_terminate_stmt\n    | scenic_terminate_simulation_stmt\n", "c10-terminate-shadows")
 M("C09", "C09.arguments", _G, "            [d for _, d in pos_only_with_default if d is not None]\n            if pos_only_with_default else\n            []\n        )\n        defaults += (\n            [d for _, d in param_default if d is not None]\n            if param_default else\n            []\n        )", "            [d for _, d in param_default if d is not None]\n            if param_default else\n            []\n        )\n        defaults += (\n            [d for _, d in pos_only_with_default if d is not None]\n            if pos_only_with_default else\n            []\n        )", "c09-defaults-order")
+
+M("C08", "C08.sources", "src/scenic/core/requirements.py", "            ty is RequirementType.require\n            and self.prob == 1\n            and condition.check_constrains_sampling()", "            ty is RequirementType.require\n            and condition.check_constrains_sampling()", "c08-soft-requirements-prune")
+M("C08", "C08.cmpop", "src/scenic/syntax/relations.py", "        if len(node.keywords) != 0:\n            return None\n", "", "c08-unary-matcher-keywords")
+M("C06", "C06.cycles", "src/scenic/core/object_types.py", "                specifying_spec = properties[modifying_inv[spec]]\n                dfs(specifying_spec)", "                specifying_spec = properties[modifying_inv[spec]]\n                if specifying_spec._dfs_state == 0:\n                    dfs(specifying_spec)", "c06-dfs-skips-in-progress")
+M("C04", "C04.computed", _R, "                overlap = self._containsPointExact(\n                    other._interiorPoint\n                ) or other._containsPointExact(self._interiorPoint)\n                return overlap", "                return self._containsPointExact(other._interiorPoint)", "c04-one-sided-interior-test")
+RF("C04", _R, "                overlap = self._containsPointExact(\n                    other._interiorPoint\n                ) or other._containsPointExact(self._interiorPoint)\n                return overlap", "                return other._containsPointExact(self._interiorPoint) or self._containsPointExact(\n                    other._interiorPoint\n                )", "c04-rf-interior-test-commuted")
